@@ -82,6 +82,10 @@ func RacePost(testName string) func(tier string, seed int64) ([]VRec, map[string
 		for sig, d := range bySig {
 			vs = append(vs, VRec{Sig: sig, Detail: d, Scenario: "race-pass/" + testName, Case: "free-running -race pass"})
 		}
+		if loc := regexp.MustCompile(`(?m)^(panic|fatal error): .*$`).FindStringIndex(string(out)); loc != nil && !strings.Contains(string(out)[loc[0]:], "test timed out") {
+			line := string(out)[loc[0]:loc[1]]
+			vs = append(vs, VRec{Sig: "race-pass:" + sanitize(trunc(line, 80)), Detail: trunc(string(out)[loc[0]:], 3000), Scenario: "race-pass/" + testName, Case: "free-running -race pass"})
+		}
 		if i := strings.Index(string(out), "@@HANG"); i >= 0 {
 			vs = append(vs, VRec{Sig: "race-pass:hang:" + testName, Detail: trunc(string(out)[i:], 3000), Scenario: "race-pass/" + testName, Case: "free-running -race pass"})
 		}
